@@ -495,7 +495,11 @@ func (s *socket) MaybeUpgrade(transport transports.Transport) {
 	// up by the server some statements ago): end the attempt now
 	if s.ReadyState() == "closed" {
 		onError("socket closed")
+		return
 	}
+
+	// the attempt listens: a probe the client has already sent is read now
+	transport.Start()
 }
 
 // Clears listeners and timers associated with current transport.
